@@ -206,6 +206,7 @@ def run_long(case, ctx):
         return
     api = "earley_rescaled.Earley.logp(x)"
     ok, P = ctx.call(api, case, earley_rescaled.Earley, cfg)
+    gap = any(complete(k) == 0 for k in range(1, len(x)))
     if ok:
         ok, v = ctx.call(api, case, P.logp, tuple(x))
         if ok:
@@ -222,8 +223,13 @@ def run_long(case, ctx):
         if logw > math.log(1e-250):
             ok, v = ctx.call(api, case, P, tuple(x))
             if ok:
-                ctx.check(api, abs(float(v) - float(wx)) <= (1e-7 + logtol) * float(wx), "rescaled.__call__/value-long", case,
-                          {"have": float(v), "want": float(wx)})
+                goodv = abs(float(v) - float(wx)) <= (1e-7 + logtol) * float(wx)
+                mechv = "rescaled.__call__/value-long"
+                if not goodv and gap and logw < math.log(1e-150):
+                    # the same mechanism as F14 seen through __call__: columns whose prefix is not in the language are not
+                    # rescaled, so chart values underflow on the way although the final weight (1e-150 .. 1e-250) is representable
+                    mechv = "rescaled.__call__/underflow-on-non-prefix-closed-grammar"
+                ctx.check(api, goodv, mechv, case, {"have": float(v), "want": float(wx), "some_prefix_not_in_language": gap})
     # language models along the string: conditionals and chain rule
     Z = prefix(0)
     for name, mod in (("rescaled.EarleyLM", earley_rescaled), ("EarleyLM", earley)):
